@@ -1,7 +1,6 @@
 package mon
 
 import (
-
 	"bytes"
 	"encoding/json"
 	"fmt"
